@@ -3413,3 +3413,89 @@ func exitReportsFinding(b, s *ssa.BasicBlock) bool {
 	}
 	return true
 }
+
+// sameAs: a is the value b, also when b is a parameter that a closure captures
+// (go/ssa then keeps it in a cell and every use is a load of the cell).
+func sameAs(a, b ssa.Value) bool {
+	if a == b {
+		return true
+	}
+	if p, ok := b.(*ssa.Parameter); ok {
+		return isParamVal(a, p)
+	}
+	if p, ok := a.(*ssa.Parameter); ok {
+		return isParamVal(b, p)
+	}
+	// two loads of one cell that is written once (the spilled parameter)
+	la, oka := a.(*ssa.UnOp)
+	lb, okb := b.(*ssa.UnOp)
+	if oka && okb && la.Op == token.MUL && lb.Op == token.MUL && resolveFree(la.X) == resolveFree(lb.X) {
+		if cell, isA := resolveFree(la.X).(*ssa.Alloc); isA && len(storesTo(cell)) == 1 {
+			return true
+		}
+	}
+	return false
+}
+
+// effCall is a call of a given function as seen from f: either a direct call
+// in f, or a call in f of a local closure (a function literal of f) that
+// forwards to it; Args are the callee's arguments expressed in f's values
+// (closure parameters replaced by the arguments at the closure's call site,
+// captured variables by their bindings).
+type effCall struct {
+	At   *ssa.Call
+	Args []ssa.Value
+}
+
+func (e effCall) Block() *ssa.BasicBlock { return e.At.Block() }
+
+func effectiveCalls(f *ssa.Function, names ...string) []effCall {
+	var out []effCall
+	for _, c := range plainCalls(f, names...) {
+		out = append(out, effCall{c, c.Call.Args})
+	}
+	for _, in := range instrs(f) {
+		c, ok := in.(*ssa.Call)
+		if !ok {
+			continue
+		}
+		g := c.Call.StaticCallee()
+		if g == nil || g.Parent() != f {
+			continue
+		}
+		var bindings []ssa.Value
+		if mc, isMC := c.Call.Value.(*ssa.MakeClosure); isMC {
+			bindings = mc.Bindings
+		}
+		for _, inner := range plainCalls(g, names...) {
+			var args []ssa.Value
+			for _, a := range inner.Call.Args {
+				mapped := a
+				for k, p := range g.Params {
+					if a == ssa.Value(p) && k < len(c.Call.Args) {
+						mapped = c.Call.Args[k]
+					}
+				}
+				// a captured variable: the load of the free variable's cell, or the free variable itself
+				fv := a
+				if ld, isLd := a.(*ssa.UnOp); isLd && ld.Op == token.MUL {
+					fv = ld.X
+				}
+				for k, v := range g.FreeVars {
+					if fv == ssa.Value(v) && k < len(bindings) {
+						mapped = bindings[k]
+						if fv != a {
+							// the binding is the cell: its single stored value
+							if cell, isA := bindings[k].(*ssa.Alloc); isA && len(storesTo(cell)) == 1 {
+								mapped = storesTo(cell)[0].Val
+							}
+						}
+					}
+				}
+				args = append(args, mapped)
+			}
+			out = append(out, effCall{c, args})
+		}
+	}
+	return out
+}
